@@ -21,6 +21,8 @@ class C11(DslProp):
     def corpus(self):
         from y0.dsl import A, B, C, P, Product
         yield {"kind": "canon", "a": GE.to_tree(Product((P(A | C), P(A | B)))), "ordering": ["A", "B", "C"]}
+        from y0.dsl import Fraction
+        yield {"kind": "canon", "a": GE.to_tree(Fraction(Fraction(Product((P(A), P(B))), P(A)), Fraction(Product((P(B), P(C))), P(C)))), "ordering": None}
 
     def canon_checks(self, case, a, ordv, res, exc, res2, exc2):
         from y0.mutate import canonicalize
